@@ -148,6 +148,31 @@ pub fn base_file(rng: &mut Rng) -> (String, String, Vec<u8>) {
     base_file_ext(rng, None)
 }
 
+/// Font data with glyph counts at and around the surrogate block and up to 2^17: the glyph number is
+/// the glyph's `char`.
+pub fn big_font(rng: &mut Rng) -> Vec<u8> {
+    let n: usize = *rng.pick(&[0xD7FF, 0xD800, 0xD801, 0xD820, 0xDFFF, 0xE000, 0xE001, 0x1_0000, 0x1_FFFF, 0x2_0000]);
+    let h: usize = *rng.pick(&[1, 1, 1, 2]);
+    let payload: Vec<u8> = (0..n * h).map(|i| (i as u8).wrapping_mul(37)).collect();
+    let mut v = match rng.below(4) {
+        0 => vec![0x36, 0x04, *rng.pick(&[0u8, 1, 2]), h as u8],
+        1 | 2 => {
+            // PSF2; either an honest header or one whose length x charsize is right but whose height
+            // makes more glyphs out of the same bytes
+            let mut hd = vec![0x72, 0xb5, 0x4a, 0x86];
+            let honest = rng.chance(1, 2);
+            let (len, cs, hh) = if honest { (n, h, h) } else { (h, n, 1) };
+            for f in [0u32, 32, 0, len as u32, cs as u32, hh as u32, 8] {
+                hd.extend_from_slice(&f.to_le_bytes());
+            }
+            hd
+        }
+        _ => Vec::new(),
+    };
+    v.extend(payload);
+    v
+}
+
 /// `force`: an extension of the buffer formats (the document is bent to fit it), or one of
 /// "psf" / "tdf" / "pal" / "clip" for the other readers.
 pub fn base_file_ext(rng: &mut Rng, force: Option<&str>) -> (String, String, Vec<u8>) {
@@ -163,6 +188,9 @@ pub fn base_file_ext(rng: &mut Rng, force: Option<&str>) -> (String, String, Vec
         0 | 1 => {
             // bitmap fonts
             let f = BitFont::from_ansi_font_page(rng.usize(42)).unwrap_or_default();
+            if rng.chance(1, 6) {
+                return ("BitFont::from_bytes".into(), "font.psf".into(), big_font(rng));
+            }
             let bytes = match rng.below(3) {
                 0 => f.to_psf2_bytes().unwrap_or_default(),
                 1 => f.convert_to_u8_data(),
